@@ -1,5 +1,5 @@
 """C14 - calendar versions never run backwards as the date advances."""
-from campaigns.sweep import SweepMonotone, RejectIncoherent, COHERENT
+from campaigns.sweep import SweepMonotone, RejectIncoherent, FutureBump, COHERENT
 from campaigns.testcmd import TestCmd
 
 PROPERTY = "C14"
@@ -16,9 +16,10 @@ ASSUMPTIONS = ["reference order = vendored packaging.version + legacy key", "clo
                "days on which WW/UU give week 53 cannot be rendered-and-read (known finding F8 of C02/C05); the sweep "
                "counts them (steered_week53) instead of reporting them here"]
 COMPONENTS = {"bumpver cli test/update/show": "real", "clock": "simulated (--date / version.TODAY)"}
-CAMPAIGNS = [SweepMonotone(), RejectIncoherent(), TestCmd("C14", quick=6000, thorough=200000, sv_rate=0.0)]
+CAMPAIGNS = [SweepMonotone(), RejectIncoherent(), FutureBump(), TestCmd("C14", quick=6000, thorough=200000, sv_rate=0.0)]
 
 
 def sanity_gate(tier, total):
-    need = ["rendering_changed", "week53_day_hit", "rejected_pairing_shown_nonmonotone", "bump_after_clock_went_back"]
+    need = ["rendering_changed", "week53_day_hit", "rejected_pairing_shown_nonmonotone", "bump_after_clock_went_back",
+            "future_version_bumped", "bump_date_in_week0"]
     return ["probe %s never fired" % p for p in need if total["probes"].get(p, 0) == 0]
